@@ -25,6 +25,8 @@ pub enum GoalSpec {
     And(Vec<GoalSpec>),
     Or(Vec<GoalSpec>),
     Not(Box<GoalSpec>),
+    /// time(G): runs G once and prints the elapsed (real) time — the harness masks the figures
+    Time(Box<GoalSpec>),
     Unify(Term, Term),
     /// functor is one of equal, less_than, less_than_or_equal, greater_than, greater_than_or_equal
     Cmp(String, Term, Term),
@@ -106,6 +108,7 @@ impl GoalSpec {
             GoalSpec::And(gs) => Goal::OperatorGoal(Operator::And(gs.iter().map(|g| g.to_suiron()).collect())),
             GoalSpec::Or(gs) => Goal::OperatorGoal(Operator::Or(gs.iter().map(|g| g.to_suiron()).collect())),
             GoalSpec::Not(g) => Goal::OperatorGoal(Operator::Not(vec![g.to_suiron()])),
+            GoalSpec::Time(g) => Goal::OperatorGoal(Operator::Time(vec![g.to_suiron()])),
             GoalSpec::Unify(a, b) => Goal::BuiltInGoal(BuiltInPredicate::new(
                 "unify".to_string(),
                 Some(vec![a.to_suiron(), b.to_suiron()]),
@@ -130,7 +133,7 @@ impl GoalSpec {
     pub fn size(&self) -> usize {
         match self {
             GoalSpec::And(gs) | GoalSpec::Or(gs) => 1 + gs.iter().map(|g| g.size()).sum::<usize>(),
-            GoalSpec::Not(g) => 1 + g.size(),
+            GoalSpec::Not(g) | GoalSpec::Time(g) => 1 + g.size(),
             _ => 1,
         }
     }
@@ -141,7 +144,7 @@ impl GoalSpec {
         }
         match self {
             GoalSpec::And(gs) | GoalSpec::Or(gs) => gs.iter().any(|g| g.contains(pred)),
-            GoalSpec::Not(g) => g.contains(pred),
+            GoalSpec::Not(g) | GoalSpec::Time(g) => g.contains(pred),
             _ => false,
         }
     }
@@ -224,6 +227,7 @@ impl fmt::Display for GoalSpec {
                 write!(f, "({})", gs.iter().map(|g| g.to_string()).collect::<Vec<_>>().join(" ; "))
             }
             GoalSpec::Not(g) => write!(f, "not({})", g),
+            GoalSpec::Time(g) => write!(f, "time({})", g),
             GoalSpec::Unify(a, b) => write!(f, "{} = {}", a, b),
             GoalSpec::Cmp(op, a, b) => {
                 let sym = match op.as_str() {
